@@ -343,3 +343,11 @@ func (lex *Lexer) Lex() *token.Token {
 
 	return tkn
 }
+
+// bad (newline-symmetry): only LF ends the label line
+func (lex *Lexer) isLabelEnd(p int) bool {
+	if len(lex.data) > p+1 && lex.data[p] == ';' && lex.data[p+1] != '\n' {
+		return false
+	}
+	return true
+}
